@@ -227,6 +227,31 @@ def _section(text, name):
     return m.group(1) if m else None
 
 
+def _dedupe(text, seen, section, report):
+    """Independent extractor modules sometimes emit the same constant (e.g. `manifestRequiredKeys` for C10 and C12).
+    A later definition with the same name is dropped when it is textually the same definition (both read it from
+    the same source line); a DIFFERENT definition under the same name is a hard error."""
+    out = []
+    chunks = re.split(r"(?m)^(?=(?:/--.*?-/\s*\n)?def\s)", text)
+    for ch in chunks:
+        m = re.search(r"(?m)^def\s+(\S+)", ch)
+        if not m:
+            out.append(ch)
+            continue
+        name = m.group(1)
+        body = re.sub(r"/--.*?-/\s*", "", ch, flags=re.S).strip()
+        if name in seen:
+            if seen[name][0] == body:
+                report.setdefault("deduplicated", []).append(f"{name} ({section} = {seen[name][1]})")
+                if out:     # a doc comment that belonged to the dropped definition may end the previous chunk
+                    out[-1] = re.sub(r"/--(?:(?!-/).)*-/\s*\Z", "", out[-1], flags=re.S)
+                continue
+            raise Unrecognised(section, f"`{name}` is also defined by extractor {seen[name][1]} with a different value")
+        seen[name] = (body, section)
+        out.append(ch)
+    return "".join(out)
+
+
 def run():
     """Regenerate Generated.lean.  Every extractor writes its own marked section; an extractor that no longer
     recognises the source FAILS CLOSED for the properties it serves (report['failed']) and its previous section is
@@ -236,6 +261,7 @@ def run():
     serves.update(_serves_discovered())
     old = open(OUT).read() if os.path.exists(OUT) else ""
     parts = [HEADER]
+    seen_defs = {}
     for name, fn in EXTRACTORS + _discover():
         try:
             text = fn(report)
@@ -246,6 +272,7 @@ def run():
             if text is None:
                 report.update(ok=False, failed_hard=name, why=repr(e))
                 return False, report
+        text = _dedupe(text, seen_defs, name, report)
         parts.append(f"\n-- BEGIN {name}\n{text}-- END {name}\n")
     parts.append("\nend Sm.Gen\n")
     text = "".join(parts)
